@@ -43,7 +43,31 @@ InstId string_to_inst_id(const char* s, size_t len) noexcept {
     return BaseInst::kIdNone;
   }
 
-  return InstNameUtils::find_instruction(s, len, InstDB::_inst_name_index_table, InstDB::_inst_name_string_table, InstDB::_inst_name_index);
+  uint32_t prefix = uint32_t(s[0]) - uint32_t('a');
+  if (ASMJIT_UNLIKELY(prefix > uint32_t('z') - uint32_t('a'))) {
+    return BaseInst::kIdNone;
+  }
+
+  // Instruction ids that share the first letter are not sorted by name (general purpose instructions, which follow the
+  // order of the instruction database, are followed by SIMD instructions), so the range cannot be bisected - scan it.
+  const InstNameIndex::Span& span = InstDB::_inst_name_index.data[prefix];
+  if (ASMJIT_UNLIKELY(!span.start)) {
+    return BaseInst::kIdNone;
+  }
+
+  StringTmp<32> name;
+  for (uint32_t inst_id = span.start; inst_id < span.end; inst_id++) {
+    name.clear();
+    if (InstNameUtils::decode(InstDB::_inst_name_index_table[inst_id], InstStringifyOptions::kNone, InstDB::_inst_name_string_table, name) != Error::kOk) {
+      continue;
+    }
+
+    if (name.size() == len && memcmp(name.data(), s, len) == 0) {
+      return InstId(inst_id);
+    }
+  }
+
+  return BaseInst::kIdNone;
 }
 #endif // !ASMJIT_NO_TEXT
 
